@@ -256,6 +256,7 @@ func cmdCheck(args []string) int {
 
 	known, _ := loadKnown(filepath.Join(VerifDir, "known_findings.txt"))
 	genS := time.Since(t0).Seconds() - loadS
+	SetSeed(seed)
 	results := solveAll(obls, timeoutS, tier == "thorough", seed)
 
 	expected := loadExpected(filepath.Join(VerifDir, "expected_obligations.json"))
